@@ -14,10 +14,10 @@ inductive VKd
   | done (op : OpId)              -- both copies = base ++ [op] = committed
 
 def Pc.vk : Pc → VKd
-  | .wLocked _ | .wRL _ _ | .wF1 _ _ | .wRbD _ _ => .same
+  | .wA _ _ | .wF1 _ _ | .wRbD _ _ => .same
   | .wF1d op l => .first op l
   | .wRb _ l | .wRbC _ l => .rb l
-  | .wTog op l | .wCL op l _ | .wW1 op l _ | .wTogC op l _ | .wW2 op l | .wF2 op l => .mid op l
+  | .wWait op l _ _ | .wF2 op l => .mid op l
   | .wRf op l | .wRfC op l => .rf op l
   | .wF2d op _ | .wRfD op _ => .done op
   | _ => .none
@@ -35,7 +35,7 @@ structure VInv (s : St) : Prop where
   vk : ∀ t, (s.pc t).post = true → VX s.committed s.base s.val (s.pc t).vk
   vquiet : s.mtx = none → ∀ x, s.val x = s.committed
 
-theorem vinv_init : VInv init := by
+theorem vinv_init (b : Bool) : VInv (init b) := by
   constructor
   · intro t; simp [init, Pc.post]
   · intro _ x; cases x <;> rfl
@@ -69,7 +69,7 @@ theorem vinv_holder {s s' : St} {t : Tid} (hi : Inv s)
   · intro hn; rw [hm, hmt] at hn; cases hn
 
 theorem vinv_lock {s : St} {t : Tid} {op : OpId} (hi : Inv s) (h : VInv s) (hm : s.mtx = none) :
-    VInv ({ s with mtx := some t, base := s.committed }.setPc t (.wLocked op)) := by
+    VInv ({ s with mtx := some t, base := s.committed }.setPc t (.wA op s.rl)) := by
   have hnopost : ∀ u, (s.pc u).post = false := by
     intro u; cases hp : (s.pc u).post
     · rfl
@@ -161,38 +161,34 @@ theorem vinv_step {s s' : St} {t : Tid} {e : Ev} (hi : Inv s) (h : VInv s) (hs :
   · rename_i op hpc; split at hs
     · rename_i hm; injection hs with hs; subst hs; exact vinv_lock hi h hm
     · simp at hs
-  -- 12 wLocked, ldRL
-  · rename_i op v hpc; split at hs
-    · injection hs with hs; subst hs; v_w hi h hpc t hv
-    · simp at hs
-  -- 13 wRL, fBegin
+  -- 12 wA, fBegin
   · rename_i op l x hpc; split at hs
     · injection hs with hs; subst hs; v_w hi h hpc t hv
     · simp at hs
-  -- 14 wRL, uth
+  -- 13 wA, uth
   · rename_i op l hpc; injection hs with hs; subst hs; v_w hi h hpc t hv
-  -- 15 wF1, fEnd
+  -- 14 wF1, fEnd
   · rename_i op l x v hpc; split at hs
     · rename_i hg; obtain ⟨rfl, rfl⟩ := hg
       injection hs with hs; subst hs; v_w hi h hpc t hv
       obtain ⟨h1, h2⟩ := hv
       simp [h1, h2]
     · simp at hs
-  -- 16 wF1, uth
+  -- 15 wF1, uth
   · rename_i op l hpc; injection hs with hs; subst hs; v_w hi h hpc t hv
-  -- 17 wF1d, uth
+  -- 16 wF1d, uth
   · rename_i op l hpc; injection hs with hs; subst hs; v_w hi h hpc t hv
-  -- 18 wF1d, stRL
+  -- 17 wF1d, stRL
   · rename_i op l v hpc; split at hs
     · injection hs with hs; subst hs; v_w hi h hpc t hv
       obtain ⟨h1, h2, h3⟩ := hv
       exact ⟨by simp [h1], h2, h3⟩
     · simp at hs
-  -- 19 wRb, cpBegin
+  -- 18 wRb, cpBegin
   · rename_i op l x hpc; split at hs
     · injection hs with hs; subst hs; v_w hi h hpc t hv
     · simp at hs
-  -- 20 wRbC, cpEnd
+  -- 19 wRbC, cpEnd
   · rename_i op l x v hpc; split at hs
     · rename_i hg; obtain ⟨rfl, rfl⟩ := hg
       injection hs with hs; subst hs; v_w hi h hpc t hv
@@ -202,42 +198,36 @@ theorem vinv_step {s s' : St} {t : Tid} {e : Ev} (hi : Inv s) (h : VInv s) (hs :
       · subst hy; simp [h2]
       · rw [side_ne_iff.1 hy]; simp [h2]
     · simp at hs
-  -- 21 wRbD, unlock
+  -- 20 wRbD, unlock
   · rename_i op l hpc; split at hs
     · injection hs with hs; subst hs
       exact vinv_unlock hi h (by simp [hpc, Pc.post]) (by simp [Pc.post]) (Or.inl (by simp [hpc, Pc.vk]))
     · simp at hs
-  -- 22 wTog, ldCL
-  · rename_i op l v hpc; split at hs
-    · injection hs with hs; subst hs; v_w hi h hpc t hv
-    · simp at hs
-  -- 23 wCL, ldCnt
-  · rename_i op l c c' v hpc; split at hs
+  -- 21 wWait, ldCnt
+  · rename_i op l zL zR c v hpc; split at hs
     · split at hs
-      · injection hs with hs; subst hs; v_w hi h hpc t hv
-      · injection hs with hs; subst hs; exact h
+      · injection hs with hs; subst hs
+        have hv := h.vk t (by simp [hpc, Pc.post]); rw [hpc] at hv
+        refine vinv_holder (t := t) hi (by intro u hu; simp [hu]) (by simp [hpc, Pc.post]) (by simp) ?_
+        cases c <;> simpa [waitSeen, Pc.vk, VX] using hv
+      · split at hs
+        · simp at hs
+        · injection hs with hs; subst hs; exact h
     · simp at hs
-  -- 24 wCL, yld
+  -- 22 wWait, yld
   · injection hs with hs; subst hs; exact h
-  -- 25 wW1, stCL
-  · rename_i op l c v hpc; split at hs
+  -- 23 wWait, stCL
+  · rename_i op l zL zR v hpc; injection hs with hs; subst hs
+    exact ⟨h.vk, h.vquiet⟩
+  -- 24 wWait, fBegin
+  · rename_i op l zL zR x hpc; split at hs
     · injection hs with hs; subst hs; v_w hi h hpc t hv
     · simp at hs
-  -- 26 wTogC, ldCnt
-  · rename_i op l c c' v hpc; split at hs
-    · split at hs
-      · injection hs with hs; subst hs; v_w hi h hpc t hv
-      · injection hs with hs; subst hs; exact h
-    · simp at hs
-  -- 27 wTogC, yld
-  · injection hs with hs; subst hs; exact h
-  -- 28 wW2, fBegin
-  · rename_i op l x hpc; split at hs
+  -- 25 wWait, uth
+  · rename_i op l zL zR hpc; split at hs
     · injection hs with hs; subst hs; v_w hi h hpc t hv
     · simp at hs
-  -- 29 wW2, uth
-  · rename_i op l hpc; injection hs with hs; subst hs; v_w hi h hpc t hv
-  -- 30 wF2, fEnd
+  -- 26 wF2, fEnd
   · rename_i op l x v hpc; split at hs
     · rename_i hg; obtain ⟨rfl, rfl⟩ := hg
       injection hs with hs; subst hs; v_w hi h hpc t hv
@@ -247,20 +237,20 @@ theorem vinv_step {s s' : St} {t : Tid} {e : Ev} (hi : Inv s) (h : VInv s) (hs :
       · subst hy; simp [h2]
       · rw [side_ne_iff.1 hy]; simp [h3]
     · simp at hs
-  -- 31 wF2, uth
+  -- 27 wF2, uth
   · rename_i op l hpc; injection hs with hs; subst hs; v_w hi h hpc t hv
-  -- 32 wF2d, uth
+  -- 28 wF2d, uth
   · rename_i op l hpc; injection hs with hs; subst hs; v_w hi h hpc t hv
-  -- 33 wF2d, unlock
+  -- 29 wF2d, unlock
   · rename_i op l hpc; split at hs
     · injection hs with hs; subst hs
       exact vinv_unlock hi h (by simp [hpc, Pc.post]) (by simp [Pc.post]) (Or.inr ⟨op, by simp [hpc, Pc.vk]⟩)
     · simp at hs
-  -- 34 wRf, cpBegin
+  -- 30 wRf, cpBegin
   · rename_i op l x hpc; split at hs
     · injection hs with hs; subst hs; v_w hi h hpc t hv
     · simp at hs
-  -- 35 wRfC, cpEnd
+  -- 31 wRfC, cpEnd
   · rename_i op l x v hpc; split at hs
     · rename_i hg; obtain ⟨rfl, rfl⟩ := hg
       injection hs with hs; subst hs; v_w hi h hpc t hv
@@ -270,33 +260,32 @@ theorem vinv_step {s s' : St} {t : Tid} {e : Ev} (hi : Inv s) (h : VInv s) (hs :
       · subst hy; simp [h2]
       · rw [side_ne_iff.1 hy]; simp [h2]
     · simp at hs
-  -- 36 wRfD, unlock
+  -- 32 wRfD, unlock
   · rename_i op l hpc; split at hs
     · injection hs with hs; subst hs
       exact vinv_unlock hi h (by simp [hpc, Pc.post]) (by simp [Pc.post]) (Or.inr ⟨op, by simp [hpc, Pc.vk]⟩)
     · simp at hs
-  -- 37 wRet, ret
+  -- 33 wRet, ret
   · rename_i op op' hpc; split at hs
     · injection hs with hs; subst hs; v_rd h hpc t
     · simp at hs
-  -- 38 wExc, exc
+  -- 34 wExc, exc
   · rename_i op fwd op' hpc; split at hs
     · injection hs with hs; subst hs; v_rd h hpc t
     · simp at hs
-  -- 39 idle, fin
+  -- 35 idle, fin
   · split at hs
     · injection hs with hs; subst hs; exact h
     · simp at hs
-  -- 40 redundant loads
+  -- 36 redundant loads
   · split at hs
     · rw [stutter_eq hs]; exact h
     · simp at hs
 
-
 theorem vinv_reachable {s : St} (h : Reachable s) : Inv s ∧ VInv s := by
-  obtain ⟨es, hes⟩ := h
+  obtain ⟨b, es, hes⟩ := h
   exact runFrom_inv (Inv := fun s => Inv s ∧ VInv s)
-    (fun _ _ _ _ hi hst => ⟨inv_step hi.1 hst, vinv_step hi.1 hi.2 hst⟩) ⟨inv_init, vinv_init⟩ hes
+    (fun _ _ _ _ hi hst => ⟨inv_step hi.1 hst, vinv_step hi.1 hi.2 hst⟩) ⟨inv_init b, vinv_init b⟩ hes
 
 /-! ### consequences of `Inv` + `VInv` used by the reader-ghost invariant and by the property theorems -/
 
@@ -349,10 +338,7 @@ theorem held_val {s : St} (hi : Inv s) (hv : VInv s) {r : Tid} {x : Side} (hx : 
       | (have := ph r x hx; subst this; exact Or.inl hrl)
       | (obtain ⟨p1, p2⟩ := ph; have := p2 r x hx; subst this; rw [← p1]; exact Or.inl hrl)
       | skip
-    case some.wTog.intro op l => have := held_val_mid hx hrl hm ph (by rw [hp]; rfl) vk; rw [hm] at this; exact this
-    case some.wCL.intro op l c => have := held_val_mid hx hrl hm ph.1 (by rw [hp]; rfl) vk; rw [hm] at this; exact this
-    case some.wW1.intro op l c => have := held_val_mid hx hrl hm ph.1 (by rw [hp]; rfl) vk; rw [hm] at this; exact this
-    case some.wTogC.intro op l c => have := held_val_mid hx hrl hm ph.1 (by rw [hp]; rfl) vk; rw [hm] at this; exact this
+    case some.wWait.intro op l zL zR => have := held_val_mid hx hrl hm ph.1 (by rw [hp]; rfl) vk; rw [hm] at this; exact this
 
 theorem held_val_le {s : St} (hi : Inv s) (hv : VInv s) {r : Tid} {x : Side} (hx : (s.pc r).held = some x) :
     s.val x <+: s.committed := by
